@@ -5,13 +5,10 @@ import os
 
 VERIF = os.path.dirname(os.path.dirname(os.path.abspath(__file__)))
 
-CHECKS = {
-    "C20": dict(
-        technique="Coq proof (byte-exact Gallina model of maskNumber/maskName, non-disclosure theorems for all strings) + reflection over the describe.File cell table regenerated from source + extracted-model correspondence + substring oracle",
-        text="Machine-checked theorems over all byte strings: maskNumber lets at most four information-carrying bytes through and none from the first two columns, hence no value with more such bytes is a substring; maskName never shows a blank-free string with a non-asterisk at byte index >= 2. The table of describe.File print cells is regenerated from the source each run and a boolean checker (evaluated by vm_compute) shows every protected accessor flows through its mask function under its flag; a generic soundness theorem lifts that to all values and flag sets. The model is tied to the code by running the extracted OCaml model and the real functions (verif hook) on every string over a 6-symbol alphabet up to length 6 plus random strings.",
-        note="Trusted: Coq kernel, translator's syntactic data-flow over describe/file.go, extraction (ExtrOcamlBasic), harness. Not modelled: fmt/tabwriter copying cell bytes, ENR/DNE String() reassembly (covered by the oracle only). Known finding: values of <= 4 significant characters not in the first two columns are printed complete (C20_number_short_refuted).",
-        design="DESIGN.md §5 C20"),
-}
+CHECKS = {}
+for _p in sorted(os.listdir(os.path.join(VERIF, "lib", "manifest"))):
+    if _p.endswith(".json"):
+        CHECKS[_p[:-5]] = json.load(open(os.path.join(VERIF, "lib", "manifest", _p)))
 
 PENDING = {}
 
